@@ -10,6 +10,7 @@ import (
 	"encoding/hex"
 	"errors"
 	"fmt"
+	"math"
 	"net/netip"
 	"sync"
 	"sync/atomic"
@@ -151,6 +152,15 @@ func (s *icmpDriver) getRTTFromRelSeq(relSeq uint8) (time.Duration, error) {
 
 var errPacketDidNotMatchTraceroute = &common.ReceiveProbeNoPktError{Err: fmt.Errorf("packet did not match the traceroute")}
 
+// seqToTTL converts a 16-bit echo sequence number into the TTL it encodes.
+// Probes carry their TTL as the sequence number, so anything above 255 cannot belong to a probe.
+func seqToTTL(seq uint16) (uint8, error) {
+	if seq > math.MaxUint8 {
+		return 0, fmt.Errorf("sequence number %d is not a TTL", seq)
+	}
+	return uint8(seq), nil
+}
+
 func (s *icmpDriver) handleProbeLayers(parser *packets.FrameParser) (*common.ProbeResponse, error) {
 	ipPair, err := parser.GetIPPair()
 	if err != nil {
@@ -187,12 +197,16 @@ func (s *icmpDriver) handleProbeLayers(parser *packets.FrameParser) (*common.Pro
 			if uint16(echo.ID) != s.echoID {
 				return nil, &common.BadPacketError{Err: fmt.Errorf("mismatched echo ID")}
 			}
-			rtt, err := s.getRTTFromRelSeq(uint8(echo.Seq))
+			ttl, err := seqToTTL(uint16(echo.Seq))
+			if err != nil {
+				return nil, &common.BadPacketError{Err: fmt.Errorf("icmpDriver failed to get TTL: %w", err)}
+			}
+			rtt, err := s.getRTTFromRelSeq(ttl)
 			if err != nil {
 				return nil, &common.BadPacketError{Err: fmt.Errorf("icmpDriver failed to get RTT: %w", err)}
 			}
 			return &common.ProbeResponse{
-				TTL:    uint8(echo.Seq),
+				TTL:    ttl,
 				IP:     ipPair.SrcAddr,
 				RTT:    rtt,
 				IsDest: false,
@@ -201,12 +215,16 @@ func (s *icmpDriver) handleProbeLayers(parser *packets.FrameParser) (*common.Pro
 			if parser.ICMP4.Id != s.echoID {
 				return nil, &common.BadPacketError{Err: fmt.Errorf("mismatched echo ID")}
 			}
-			rtt, err := s.getRTTFromRelSeq(uint8(parser.ICMP4.Seq))
+			ttl, err := seqToTTL(parser.ICMP4.Seq)
+			if err != nil {
+				return nil, &common.BadPacketError{Err: fmt.Errorf("icmpDriver failed to get TTL: %w", err)}
+			}
+			rtt, err := s.getRTTFromRelSeq(ttl)
 			if err != nil {
 				return nil, &common.BadPacketError{Err: fmt.Errorf("icmpDriver failed to get RTT: %w", err)}
 			}
 			return &common.ProbeResponse{
-				TTL:    uint8(parser.ICMP4.Seq),
+				TTL:    ttl,
 				IP:     ipPair.SrcAddr,
 				RTT:    rtt,
 				IsDest: true,
@@ -242,12 +260,16 @@ func (s *icmpDriver) handleProbeLayers(parser *packets.FrameParser) (*common.Pro
 			if echo.Identifier != s.echoID {
 				return nil, &common.BadPacketError{Err: fmt.Errorf("mismatched echo ID")}
 			}
-			rtt, err := s.getRTTFromRelSeq(uint8(echo.SeqNumber))
+			ttl, err := seqToTTL(echo.SeqNumber)
+			if err != nil {
+				return nil, &common.BadPacketError{Err: fmt.Errorf("icmpDriver failed to get TTL: %w", err)}
+			}
+			rtt, err := s.getRTTFromRelSeq(ttl)
 			if err != nil {
 				return nil, &common.BadPacketError{Err: fmt.Errorf("icmpDriver failed to get RTT: %w", err)}
 			}
 			return &common.ProbeResponse{
-				TTL:    uint8(echo.SeqNumber),
+				TTL:    ttl,
 				IP:     ipPair.SrcAddr,
 				RTT:    rtt,
 				IsDest: false,
@@ -262,12 +284,16 @@ func (s *icmpDriver) handleProbeLayers(parser *packets.FrameParser) (*common.Pro
 			if id != s.echoID {
 				return nil, &common.BadPacketError{Err: fmt.Errorf("mismatched echo ID")}
 			}
-			rtt, err := s.getRTTFromRelSeq(uint8(seq))
+			ttl, err := seqToTTL(seq)
+			if err != nil {
+				return nil, &common.BadPacketError{Err: fmt.Errorf("icmpDriver failed to get TTL: %w", err)}
+			}
+			rtt, err := s.getRTTFromRelSeq(ttl)
 			if err != nil {
 				return nil, &common.BadPacketError{Err: fmt.Errorf("icmpDriver failed to get RTT: %w", err)}
 			}
 			return &common.ProbeResponse{
-				TTL:    uint8(seq),
+				TTL:    ttl,
 				IP:     ipPair.SrcAddr,
 				RTT:    rtt,
 				IsDest: true,
